@@ -2,7 +2,7 @@
 from lib import coq_term_str as S, coq_list as L, coq_Z as Z, coq_nat as N
 from props import forest_common as fc
 
-THEOREMS = ['C20_tft_unshaped_exact', 'C20_tft_resolve_in', 'C20_is_ambiguous_single', 'C20_is_ambiguous_iff',
+THEOREMS = ['C20_tft_unshaped_exact', 'C20_tft_unshaped_perm', 'C20_tft_resolve_in', 'C20_is_ambiguous_single', 'C20_is_ambiguous_iff',
             'C20_visit_terminates', 'C20_visit_total', 'C20_on_cycle_exact', 'C20_cycle_events_sound',
             'C20_loop_eq_rec', 'C20_example_tft', 'C20_example_cycle']
 GEN_DEPS = ['ForestSortKey']
